@@ -153,7 +153,10 @@ def run(idx, rep, tier):
         if not idx.has_cls(kind):
             rep.missing_anchor(f"class {kind}")
             continue
-        init = idx.cls(kind).methods.get("__init__")
+        init = idx.find_method(idx.cls(kind), "__init__")
+        if init is None or len(init.params) < 2:
+            rep.undecided("generic-path", f"{kind}.__init__:shape", "no constructor with an operand found")
+            continue
         a = init.params[1]
         sup = [c for c in df.calls(init.node) if isinstance(c.func, ast.Attribute) and c.func.attr == "__init__"]
         sh = next((norm_idx(nospace(k.value)) for c in sup for k in c.keywords if k.arg == "shape"), "")
